@@ -1,4 +1,4 @@
-(* C05 - rculfhash concurrent add / add_unique / lookup / del (src/rculfhash.c), fixed table size: invariants for every schedule; resident nodes are found
+(* C05 - rculfhash concurrent add / add_unique / lookup / del / replace (src/rculfhash.c), fixed table size: invariants for every schedule; resident nodes are found
    Property theorems only: each is the full statement, closed by `exact`, followed by Print Assumptions. *)
 Require Import Coq.Lists.List.
 Require Import Coq.NArith.NArith.
@@ -48,6 +48,7 @@ Theorem C05_own_bucket_all_schedules :
     forall (C : cfg) (isB : N -> bool) (sz0 : N),
     (forall i : N, isB (bucket C i) = true) ->
     (forall node : N, (rh C (bucket C (N.land (hashof C node) (sz0 - 1))) <= rh C node)%N) ->
+    (forall a b : N, rh C a = rh C b -> hashof C a = hashof C b) ->
     forall (cs : list choice) (s : state hloc (hprog C)),
     Inv3 C isB sz0 s -> Inv3 C isB sz0 (fst (run hloc hloc_eqb (hprog C) cs s)).
 Proof. exact (@Urcu.Lfht.LfhtFind.lfht_own_bucket_all_schedules). Qed.
@@ -58,6 +59,7 @@ Theorem C05_resident_found_all_schedules :
     forall (C : cfg) (isB : N -> bool) (sz0 : N),
     (forall i : N, isB (bucket C i) = true) ->
     (forall node : N, (rh C (bucket C (N.land (hashof C node) (sz0 - 1))) <= rh C node)%N) ->
+    (forall a b : N, rh C a = rh C b -> hashof C a = hashof C b) ->
     forall (x : N) (t : nat) (rest : list hop),
     isB x = false ->
     forall (cs : list choice) (s : state hloc (hprog C)),
@@ -72,6 +74,7 @@ Theorem C05_lookup_returns_key :
     forall (C : cfg) (isB : N -> bool) (sz0 : N),
     (forall i : N, isB (bucket C i) = true) ->
     (forall node : N, (rh C (bucket C (N.land (hashof C node) (sz0 - 1))) <= rh C node)%N) ->
+    (forall a b : N, rh C a = rh C b -> hashof C a = hashof C b) ->
     forall (x : N) (t : nat) (rest : list hop),
     isB x = false ->
     forall (cs : list choice) (s : state hloc (hprog C)) (n : N),
